@@ -23,6 +23,8 @@ ASSUMPTIONS = [
     "'preserve the instant' is claimed where the target type can hold the value: to_* for year 1..9999, no 24:00:00, |offset| < 24 h, exact down to "
     "the microsecond (the deviation fractional_second % 1000 ns is proved exactly); from_* for utcoffsets that are whole minutes (the deviation utcoffset % 1 min is proved exactly)",
     "xs:duration seconds are compared as the matched decimal text; the code hands that text to float()",
+    "hash(int) is that of a 64-bit CPython (modulus 2**61-1, asserted when the plug-in is loaded)",
+    "the converse theorems speak about s.strip(): Python's strip() removes more kinds of white space than XSD's four characters",
 ]
 
 # ----------------------------------------------------------------- impl side
@@ -431,6 +433,7 @@ PERIOD_HAND = [
     "--12+01:00", "--05--", "--05---05:00", "--05--Z", "--01-01", "--02-29", "--02-30", "--12-31", "--04-31", "--12-31Z", "--12-31-05:00",
     "2001", "-2001", "0000", "12345", "02001", "2001Z", "2001+02:00", "2001-05:00", "-2001-05:00", "2001-10", "2001-13", "2001-00",
     "2001-10Z", "2001-10+02:00", "2001-10-05:00", "-2001-10", "12345-10", "12345-10-05:00", " 2001 ", "2001-10-10", "", "-", "--", "---", "----01",
+    "--03---02", "--03---02Z", "--12---31+01:00", "--05----", "--05--+14:00", "--05--+14:01", "2001+14:01", "2001-15:00", "---01+99:00",
     "1:", "-1:", "20:01", "2001-1", "٢٠٠١", "2001-١٠", "--0٣", "99999-12+14:00", "1-10", "001-10", "-0001", "-0001-10",
 ]
 
@@ -1455,16 +1458,20 @@ LEVEL_TEXT = (
     "shapes through XmlPeriod's dispatcher (period_accepts_g*) and xs:duration for every combination of components, sign and fractional seconds "
     "(duration_accepts_valid, duration_format_parse); (rejection) whatever from_string/XmlPeriod accept is a real calendar date / time of day "
     "(reject_unreal_*); (round trip) str() of every valid value parses back to it (*_format_parse); (timeline) the comparison key orders and "
-    "identifies values exactly as the calendar does (days_from_civil_*, datetime_key_*, timeline_end_of_day, timeline_offset); (standard library) "
+    "identifies values exactly as the calendar does (days_from_civil_*, datetime_key_*, timeline_end_of_day, timeline_offset), equal values hash equal "
+    "(datetime_eq_hash, time_eq_hash); (converse) whatever from_string accepts is, after Python's strip(), an XSD lexical form of xs:date / xs:time / "
+    "xs:dateTime with XSD's components (date/time/datetime_accepts_only_valid, date_accepts_iff_valid) — false for XmlPeriod because of the legacy "
+    "--MM-- spelling (period_accepts_only_valid_false, finding C06-gmonth-legacy-spelling); (standard library) "
     "to_datetime/to_time/to_date succeed exactly on the stated region, move the instant by exactly fractional_second % 1000 ns, from_* by exactly "
     "utcoffset % 1 min, and the two directions are inverse where representable (to_datetime_ok_iff, to_datetime_instant, from_to_datetime, "
     "from_datetime_instant, to_from_datetime, from_datetime_shape, and the XmlTime/XmlDate counterparts). The model is tied to the code by a "
-    "differential check of from_string/__str__/parse_date_args/int()/XmlPeriod/XmlDuration/_cmp/days_from_civil/to_*/from_* on hand-picked, "
+    "differential check of from_string/__str__/parse_date_args/int()/XmlPeriod/XmlDuration/_cmp/_timeline/__hash__/days_from_civil/to_*/from_* and of "
+    "the instants of real datetime objects (stdlib arithmetic) on hand-picked, "
     "bounded-exhaustive, grammar-drawn and mutated inputs; the property's own oracles are swept on the implementation on every run."
 )
 LEVEL_NOTE = (
     "Trusted: Lean kernel; hand models of CPython int()/strip/isdigit/format, of the duration regular expression and of the datetime constructors; "
     "the XSD grammar transcription; the sampling correspondence check. Not modelled: XmlDate/XmlPeriod/XmlDuration ordering (tuple / string order, "
-    "outside the statement), __hash__, replace(), now()/utcnow() beyond the shape of from_datetime results (the clock is not compared), "
+    "outside the statement), hash(XmlPeriod) beyond 'equal values hash equal' (oracle c06.hash), replace(), now()/utcnow() beyond the shape of from_datetime results (the clock is not compared), "
     "converter.py's strptime-based DateTimeConverter for stdlib types with a format."
 )
